@@ -314,6 +314,105 @@ where
             }
             left = Some(it);
         }
+        "find_map" => {
+            // find_map(f) with f answering Some at index j: what find(pred) is, through another provided method
+            let mut idx = 0usize;
+            match call(ctx, || {
+                it.find_map(|x| {
+                    let _s = ledger::Suspend::new();
+                    handed.set(handed.get() + 1);
+                    ledger::maybe_panic('g', 0, 0);
+                    let hit = idx == j;
+                    idx += 1;
+                    if hit {
+                        Some(x)
+                    } else {
+                        None
+                    }
+                })
+            }) {
+                Some(Some(x)) => {
+                    some = "item";
+                    r.push(x.json(ctx));
+                    x.check_inside(ctx);
+                    x.keep(ctx);
+                }
+                Some(None) => some = "none",
+                None => some = "panic",
+            }
+            left = Some(it);
+        }
+        "min_by" | "max_by" => {
+            // a comparator that always answers Less: min_by keeps the first item, max_by the last;
+            // every other item is consumed (a consuming cursor destroys it)
+            let cmp = |_: &I::Item, _: &I::Item| {
+                let _s = ledger::Suspend::new();
+                ledger::maybe_panic('g', 0, 0);
+                std::cmp::Ordering::Less
+            };
+            let got = if fin == "min_by" { call(ctx, move || it.min_by(cmp)) } else { call(ctx, move || it.max_by(cmp)) };
+            match got {
+                Some(Some(x)) => {
+                    some = "item";
+                    r.push(x.json(ctx));
+                    x.check_inside(ctx);
+                    x.keep(ctx);
+                }
+                Some(None) => some = "none",
+                None => some = "panic",
+            }
+        }
+        "for_each" | "reduce" | "collect" => {
+            // the remaining provided methods that hand EVERY item to the caller
+            let store: std::cell::RefCell<Vec<I::Item>> = std::cell::RefCell::new(Vec::new());
+            let ok = match fin {
+                "for_each" => call(ctx, || {
+                    it.for_each(|x| {
+                        let _s = ledger::Suspend::new();
+                        store.borrow_mut().push(x);
+                        ledger::maybe_panic('g', 0, 0);
+                    })
+                })
+                .is_some(),
+                "reduce" => match call(ctx, || {
+                    it.reduce(|acc, x| {
+                        let _s = ledger::Suspend::new();
+                        store.borrow_mut().push(acc);
+                        ledger::maybe_panic('g', 0, 0);
+                        x
+                    })
+                }) {
+                    Some(lastx) => {
+                        if let Some(x) = lastx {
+                            store.borrow_mut().push(x);
+                        }
+                        true
+                    }
+                    None => false,
+                },
+                _ => match call(ctx, || it.collect::<Sink<I::Item>>()) {
+                    Some(sk) => {
+                        store.borrow_mut().extend(sk.0);
+                        true
+                    }
+                    None => false,
+                },
+            };
+            if ok {
+                some = "seq";
+            } else {
+                some = "panic";
+            }
+            // (after a panic the items already received are still owned here: kept, so that nothing is
+            //  destroyed behind the ledger's back)
+            for x in store.into_inner() {
+                if ok {
+                    r.push(x.json(ctx));
+                    x.check_inside(ctx);
+                }
+                x.keep(ctx);
+            }
+        }
         "any" | "all" | "position" => {
             // short-circuiting consumers: the predicate answers at index j; items handed to it are
             // dropped there (for consuming cursors that destroys them)
@@ -385,7 +484,7 @@ where
             // (a panic may also come from the destructor of the part of a pair that a projecting cursor
             //  discards while fetching the next item: then one more item has left than was handed over)
             let gone = pre_fin.saturating_sub(l.0);
-            if matches!(fin, "find" | "any" | "all" | "position") && gone != handed.get() && !(some == "panic" && gone == handed.get() + 1) {
+            if matches!(fin, "find" | "find_map" | "any" | "all" | "position") && gone != handed.get() && !(some == "panic" && gone == handed.get() + 1) {
                 // (after a panic of the closure this is exception safety of the cursor: C04 as well)
                 let pr: &'static str = if some != "panic" {
                     props
@@ -409,6 +508,24 @@ where
         }
     }
     (json!({"yield": yields, "lens": lens, "rem": rem, "fin": {"some": some, "r": r, "after": after}}), left)
+}
+
+/// `collect()` target: a FromIterator sink that pulls with `next` and suspends the allocation
+/// counter only while it stores an item (the iterator's own work stays measured).
+pub struct Sink<T>(pub Vec<T>);
+impl<T> FromIterator<T> for Sink<T> {
+    fn from_iter<I: IntoIterator<Item = T>>(iter: I) -> Self {
+        let mut v = {
+            let _s = ledger::Suspend::new();
+            Vec::with_capacity(64)
+        };
+        for x in iter {
+            let _s = ledger::Suspend::new();
+            v.push(x);
+            ledger::maybe_panic('g', 0, 0);
+        }
+        Sink(v)
+    }
 }
 
 /// Debug rendering of a cursor into a non-allocating sink (measured: C06, C19).
